@@ -31,7 +31,7 @@ DimsR(rank, a) ==
     [] rank = 3 -> <<Len(a), Len(a[1]), Len(a[1][1])>>
     [] rank = 4 -> <<Len(a), Len(a[1]), Len(a[1][1]), Len(a[1][1][1])>>
 
-ShapesOf(rank) == [1..rank -> 1..MaxDim]        \* functions with domain 1..rank are tuples
+ShapesOf(rank) == [1..rank -> 1..(IF rank = 4 /\ MaxDim > 2 THEN 2 ELSE MaxDim)]   \* tuples; rank 4 capped at 2 per axis to bound the search
 
 Mk(shape, seed) ==
   LET rank == Len(shape) n == Count(shape)
